@@ -166,6 +166,7 @@ def decide(prop, args, P, REG, targets, assumed, results, seed, t0, known):
                 "explanation": "each obligation is a verification condition generated from the AST of the working tree and a sidecar contract; "
                 "discharged = unsat of (path condition and not clause) in z3 5.1",
                 "repo_root": args.repo,
+                "g7_summary_conformance": ({k: v for k, v in args.g7.items() if k not in ("examples", "per_function")} if getattr(args, "g7", None) else "thorough tier only"),
                 "g3_executor_vs_cpython": ({k: v for k, v in args.g3.items() if k not in ("examples", "per_function")} if getattr(args, "g3", None) else "not run (--only / PYVC_SKIP_G3)"),
                 "source_sha256": {m: P.file_sha[m] for m in sorted(P.file_sha)},
             },
